@@ -18,6 +18,7 @@ def genFacts9 : Facts9 :=
     mutations := Generated.matchMutations
     fresh := Generated.matchFresh
     identity := Generated.identityMarkers
-    moduleWrites := Generated.matchModuleWrites }
+    moduleWrites := Generated.matchModuleWrites
+    userAttrs := Generated.matchUserAttrs }
 
 end Glom.C09
